@@ -316,20 +316,45 @@ def account_cell(i, seed):
     return RC.RCell('1' + addr + sinfo + storage, refs)
 
 
+def dbi(grams, cur):
+    """DepthBalanceInfo (split_depth 0) with balance `grams` and extra currencies {id: amount} -> (bits, refs)"""
+    if cur:
+        return RB.uint(0, 5) + RB.coins(grams) + '1', (RH.build({c: RB.var_uint_l(a, 5) for c, a in cur.items()}, 32),)
+    return RB.uint(0, 5) + RB.coins(grams) + '0', ()
+
+
+_DBI = {}           # (bits, refs) of an extra -> (grams, currencies): the fork extra is the SUM over its subtree, as in a real state
+
+
 def leaf_value(i, seed, with_extra):
-    """leaf payload of ShardAccounts: extra (DepthBalanceInfo) followed by the ShardAccount value"""
+    """-> ((value bits, value refs) of the ShardAccount, account cell, last_trans_hash, last_trans_lt); the leaf's extra
+    (DepthBalanceInfo: its balance; an extra-currency dictionary = one more reference in front) is produced by leaf_extra"""
     acc = account_cell(i, seed)
-    if with_extra:
-        xdict = RH.build({7: RB.var_uint_l(1000 + i, 5)}, 32)
-        extra, xrefs = RB.uint(0, 5) + RB.coins(10 ** 9 + i) + '1', (xdict,)
-    else:
-        extra, xrefs = RB.uint(0, 5) + RB.coins(10 ** 9 + i) + '0', ()
     lth = filler(seed, f'c11-lth-{i}', 32)
     value = RB.bytes_bits(lth) + RB.uint(77000 + i, 64)
-    return (extra + value, xrefs + (acc,)), acc, lth, 77000 + i
+    sem = (10 ** 9 + i, {7: 1000 + i} if with_extra else {})
+    _LEAF_SEM[value] = sem
+    return (value, (acc,)), acc, lth, 77000 + i
 
 
-FORK_EXTRA = RB.uint(0, 5) + RB.coins(5) + '0'
+_LEAF_SEM = {}
+
+
+def leaf_extra(v):
+    sem = _LEAF_SEM[v[0]]
+    x = dbi(*sem)
+    _DBI[x] = sem
+    return x
+
+
+def fork_extra(le, re):
+    (g1, c1), (g2, c2) = _DBI[le], _DBI[re]
+    cur = dict(c1)
+    for c, a in c2.items():
+        cur[c] = cur.get(c, 0) + a
+    x = dbi(g1 + g2, cur)
+    _DBI[x] = (g1 + g2, cur)
+    return x
 
 
 def shard_state(keys, seed, extra_mask):
@@ -339,8 +364,8 @@ def shard_state(keys, seed, extra_mask):
         (vb, vr), acc, lth, lt = leaf_value(i, seed, bool(extra_mask >> i & 1))
         mapping[k] = (vb, vr)
         info[k] = (acc, lth, lt)
-    root = RH.build(mapping, 256, aug=(lambda v: '', lambda l, r: FORK_EXTRA))
-    accounts = RC.RCell('1' + FORK_EXTRA, (root,))
+    root, root_extra = RH._edge({RH._keybits(k, 256): RH._norm_value(v) for k, v in mapping.items()}, 256, '', None, (leaf_extra, fork_extra))
+    accounts = RC.RCell('1' + root_extra[0], (root,) + tuple(root_extra[1]))     # ahme_root$1 root:^(HashmapAug ..) extra:Y
     omq = RC.RCell('0' + '0' * 64 + '0' + '0')
     misc = RC.RCell(RB.uint(1, 64) + RB.uint(2, 64) + RB.coins(10 ** 12) + '0' + RB.coins(7) + '0' + '0' + '0')
     bits = '10010000001000111010111111100010' + RB.sint(-239, 32) + '00' + RB.uint(0, 6) + RB.sint(0, 32) + RB.uint(1 << 63, 64) + RB.uint(123, 32) + RB.uint(0, 32) + \
@@ -453,6 +478,11 @@ def account_case(rec, ks, extra_mask, keep_account):
             if other != target:
                 rej('mut:claimed-other', f'claimed state is account #{oi}', lambda other=other: check_account_proof(boc, bid, addr(target), to_lib(info[other][0], {})))
                 rej('mut:address', f'address of account #{oi} (its leaf is pruned in this proof)', lambda other=other: check_account_proof(boc, bid, addr(other), lacc))
+                # an account whose path is cut by a pruned branch is not "absent": nothing can be claimed about it from this proof
+                rej('mut:claimed-empty', f'empty cell claimed for account #{oi}, which exists behind a pruned branch of this proof',
+                    lambda other=other: check_account_proof(boc, bid, addr(other), Cell.empty()))
+                rej('mut:claimed-empty', f'no state (None) claimed for account #{oi}, which exists behind a pruned branch of this proof',
+                    lambda other=other: check_account_proof(boc, bid, addr(other), None))
         for b in (0, len(acc.bits) // 2, len(acc.bits) - 1):
             rej('mut:claimed-flip', f'claimed state with data bit {b} flipped', lambda b=b: check_account_proof(boc, bid, addr(target), to_lib(RC.RCell(flip(acc.bits, b), acc.refs), {})))
         rej('mut:address', 'address not in the dictionary', lambda: check_account_proof(boc, bid, addr(target ^ K(200)), lacc))
